@@ -70,7 +70,7 @@ def run(name, checks):
         for c in checks:
             rc, out = sh("./check %s --tier quick" % c, cwd=VERIF, timeout=3600)
             lines = [l for l in out.split("\n") if l.startswith("VIOLATION") or l.startswith("KNOWN")]
-            results[c] = {"exit": rc, "lines": lines[:6]}
+            results[c] = {"exit": rc, "lines": lines[:6], "concrete": sum(1 for l in lines if l.startswith("VIOLATION") and not l.endswith("no-failing-input-found")), "no_input": sum(1 for l in lines if l.endswith("no-failing-input-found"))}
             print(c, "exit", rc, *lines[:3], sep="\n  ")
     finally:
         sh("git checkout -- .", cwd=REPO)
